@@ -78,6 +78,7 @@ type partsXML struct {
 type PartsResp struct {
 	Resp      Resp
 	Nums      []string
+	ETags     []string
 	Truncated bool
 	Next      int
 }
@@ -105,6 +106,7 @@ func (s *Sess) ListParts(b, k, uid string, marker, limit int) PartsResp {
 		for _, p := range px.Parts {
 			o.contents = append(o.contents, hs(strconv.Itoa(p.PartNumber))+":"+strconv.FormatInt(p.Size, 10)+":"+hs(p.ETag))
 			out.Nums = append(out.Nums, strconv.Itoa(p.PartNumber))
+			out.ETags = append(out.ETags, p.ETag)
 		}
 		o.truncated = px.IsTruncated
 		o.next = strconv.Itoa(px.Next)
@@ -261,9 +263,10 @@ func runC06(tier string, seed uint64) {
 					sort.Ints(nums)
 					var parts []CPart
 					mode := rng.Intn(10)
+					subset := mode == 1 || rng.Intn(3) == 0 // a subset list on its own is valid; combined with a defect it is rejected
 					for _, n := range nums {
-						if mode == 1 && rng.Bool() {
-							continue // subset
+						if subset && rng.Bool() {
+							continue
 						}
 						parts = append(parts, CPart{n, u.etags[n]})
 					}
@@ -291,6 +294,9 @@ func runC06(tier string, seed uint64) {
 						parts = nil
 					}
 					r := s.Complete(b, u.key, u.id, parts)
+					if r.Status != 200 && rng.Intn(2) == 0 {
+						s.ListParts(b, u.key, u.id, -1, -1) // a rejected complete leaves the pending upload untouched
+					}
 					if r.Status == 200 {
 						nontrivial(fmt.Sprint(kind, i, j))
 						for x, y := range ups {
@@ -330,7 +336,7 @@ func runC06(tier string, seed uint64) {
 			s.end()
 		}
 	}
-	sample("histories of 30 ops: initiate (with/without metadata) / upload-part n in {1..4, 7, 9999, 10000, 10001, 0, -1} incl. re-upload and empty body / complete (all parts ascending, subset, permutation, unknown number, wrong etag, duplicate, unquoted etags, empty list) / abort / get / list-parts / list-uploads over 2 keys and several simultaneous uploads, on every backend")
+	sample("histories of 30 ops: initiate (with/without metadata) / upload-part n in {1..4, 7, 9999, 10000, 10001, 0, -1} incl. re-upload and empty body / complete (all parts ascending, subset, permutation, unknown number, wrong etag, duplicate, unquoted etags, empty list; each defect also combined with a subset list; a rejected complete is followed by list-parts) / abort / get / list-parts / list-uploads over 2 keys and several simultaneous uploads, on every backend")
 }
 
 // ---------------------------------------------------------------- C14
